@@ -40,6 +40,18 @@ func sweepC12(tier string) []Stratum {
 			}
 		}
 	}
+	if tier == "thorough" {
+		// every single-byte substitution (all 255 other values) at the first 13 positions, reply delivered whole
+		for kind := 0; kind < 2; kind++ {
+			for fc := range AllFCs {
+				for pos := int32(0); pos < 13; pos++ {
+					for v := int32(0); v < 255; v++ {
+						out = append(out, Stratum{Prefix: []int32{int32(kind), int32(fc), 1}, Named: map[string]int32{"small": 3, "exc": 0, "pos": pos, "subst": v, "gap": 0, "cut5": int32(v%3) * 1, "cutmode": 0}})
+					}
+				}
+			}
+		}
+	}
 	return out
 }
 
@@ -121,9 +133,9 @@ func genC12(rc *RunCtx) (*C1, *c12Info, bool) {
 		info.Pos = i
 		bad[i] ^= 1 << uint(t.ChooseAs("bit", 8))
 	case 1: // substitute one byte
-		i := t.Choose(n)
+		i := t.ChooseAs("pos", n)
 		info.Pos = i
-		bad[i] ^= byte(1 + t.Choose(255))
+		bad[i] ^= byte(1 + t.ChooseAs("subst", 255))
 	case 2: // burst of 2-4 bytes
 		l := 2 + t.Choose(3)
 		i := t.Choose(max(1, n-l+1))
